@@ -167,7 +167,7 @@ func cmdCodec(args []string) {
 	recs, batches := 0, 0
 	var samples []string
 	curName := ""
-	writeBatch := func(tr *Trace, ty string, w int, fields string, ins, encs, decs [][]byte) {
+	writeBatch := func(tr *Trace, ty string, w int, fields string, ins, encs, decs, dec2s [][]byte) {
 		for off := 0; off < len(ins); off += per {
 			end := min(off+per, len(ins))
 			if off == 0 {
@@ -193,6 +193,8 @@ func cmdCodec(args []string) {
 				tr.rawBytes(encs[i])
 				tr.buf = append(tr.buf, `,"dec":`...)
 				tr.rawBytes(decs[i])
+				tr.buf = append(tr.buf, `,"dec2":`...)
+				tr.rawBytes(dec2s[i])
 				tr.buf = append(tr.buf, '}')
 			}
 			tr.buf = append(tr.buf, ']')
@@ -200,7 +202,12 @@ func cmdCodec(args []string) {
 		}
 	}
 	bi := 0
+	pass := 0
+typesAgain:
 	for _, t := range codecTypes() {
+		if pass == 1 && t.w > 2 {
+			continue // second pass (after the tuples): the small types once more - encoders must not keep state
+		}
 		curName = t.name
 		ps := patternsFor(t, r, *nrand, *ex16)
 		sort.SliceStable(ps, func(i, j int) bool { return t.cmp(ps[i], ps[j]) < 0 })
@@ -208,11 +215,13 @@ func cmdCodec(args []string) {
 		chunk := 8192
 		for off := 0; off < len(ps); off += chunk - 1 { // overlap by one record: adjacency across chunks is checked too
 			end := min(off+chunk, len(ps))
-			var ins, encs, decs [][]byte
+			var ins, encs, decs, dec2s [][]byte
 			for _, p := range ps[off:end] {
-				var e []byte
-				var d uint64
-				if msg := guard(func() { e = t.enc(p); d = t.dec(e) }); msg != "" {
+				var e, e0 []byte
+				var d, d2 uint64
+				// the encoding is recorded as the encoder returned it; the SAME slice is then decoded twice (a holder of an
+				// encoding - a leaf - decodes it again and again)
+				if msg := guard(func() { e = t.enc(p); e0 = cloneB(e); d = t.dec(e); d2 = t.dec(e) }); msg != "" {
 					// an encoder / decoder that faults on a value of its type: logged as a record of its own
 					tr := trs[bi%len(trs)]
 					tr.start("panic")
@@ -225,8 +234,9 @@ func cmdCodec(args []string) {
 					continue
 				}
 				ins = append(ins, be(p, t.w))
-				encs = append(encs, cloneB(e))
+				encs = append(encs, e0)
 				decs = append(decs, be(d, t.w))
+				dec2s = append(dec2s, be(d2, t.w))
 			}
 			if len(ins) == 0 {
 				bi++
@@ -235,7 +245,7 @@ func cmdCodec(args []string) {
 				}
 				continue
 			}
-			writeBatch(trs[bi%len(trs)], t.ty, t.w, "", ins, encs, decs)
+			writeBatch(trs[bi%len(trs)], t.ty, t.w, "", ins, encs, decs, dec2s)
 			bi++
 			batches++
 			recs += end - off
@@ -247,13 +257,20 @@ func cmdCodec(args []string) {
 			samples = append(samples, t.name+": "+strconv.FormatUint(ps[len(ps)/2], 16))
 		}
 	}
-	// tuples: concatenations of the numeric encodings
+	if pass == 1 {
+		goto done
+	}
+	// tuples: concatenations of the numeric encodings; every numeric type leads one schema (its encoding is the
+	// buffer the following fields are appended to), the rest is random
 	curName = "tuple"
-	for s := 0; s < *tuples; s++ {
+	for s := 0; s < *tuples+fStr; s++ {
 		var sc Schema
 		n := 2 + r.Intn(3)
 		for i := 0; i < n; i++ {
 			sc.Fields = append(sc.Fields, r.Intn(fStr))
+		}
+		if s < fStr {
+			sc.Fields[0] = s
 		}
 		codec := tupleCodec{sc}
 		cmp := tupleCmp(sc)
@@ -270,18 +287,19 @@ func cmdCodec(args []string) {
 			fields = append(fields, `{"ty":"`+ty+`","w":`+strconv.Itoa(fieldWidth[f])+`}`)
 			w += fieldWidth[f]
 		}
-		var ins, encs, decs [][]byte
+		var ins, encs, decs, dec2s [][]byte
 		for _, t := range ts {
-			var e []byte
-			var d Tuple
-			if msg := guard(func() { e, _ = codec.Transform(t); d = codec.Restore(e) }); msg != "" {
+			var e, e0 []byte
+			var d, d2 Tuple
+			if msg := guard(func() { e, _ = codec.Transform(t); e0 = cloneB(e); d = codec.Restore(e); d2 = codec.Restore(e) }); msg != "" {
 				continue // a fault of a field codec is reported by that field type's own batch
 			}
 			ins = append(ins, tupleBits(sc, t))
-			encs = append(encs, cloneB(e))
+			encs = append(encs, e0)
 			decs = append(decs, tupleBits(sc, d))
+			dec2s = append(dec2s, tupleBits(sc, d2))
 		}
-		writeBatch(trs[bi%len(trs)], "tuple", w, "["+strings.Join(fields, ",")+"]", ins, encs, decs)
+		writeBatch(trs[bi%len(trs)], "tuple", w, "["+strings.Join(fields, ",")+"]", ins, encs, decs, dec2s)
 		bi++
 		batches++
 		recs += len(ts)
@@ -289,6 +307,9 @@ func cmdCodec(args []string) {
 			samples = append(samples, "tuple "+sc.String())
 		}
 	}
+	pass = 1
+	goto typesAgain
+done:
 	lines := 0
 	for _, t := range trs {
 		lines += t.Lines
@@ -408,22 +429,26 @@ func cmdCodecRerun(args []string) {
 			for j, x := range it.In {
 				inb[j] = byte(x)
 			}
-			var enc, dec []byte
+			var enc, dec, dec2 []byte
 			if e.Ty == "tuple" {
-				off := 0
+				// through the same tuple codec as the recorded run (concatenation by append to the first field's encoding)
+				var sc Schema
 				for _, f := range e.Fields {
-					t := pick(f.Ty, f.W)
-					p := pattern(inb[off:off+f.W], f.W)
-					ee := t.enc(p)
-					enc = append(enc, ee...)
-					dec = append(dec, be(t.dec(ee), f.W)...)
-					off += f.W
+					sc.Fields = append(sc.Fields, fieldCode(f.Ty, f.W))
 				}
+				codec := tupleCodec{sc}
+				tp := rawToTupleRaw(sc, inb)
+				ee, _ := codec.Transform(tp)
+				enc = cloneB(ee)
+				dec = tupleBits(sc, codec.Restore(ee))
+				dec2 = tupleBits(sc, codec.Restore(ee))
 			} else {
 				t := pick(e.Ty, e.W)
 				p := pattern(inb, e.W)
-				enc = t.enc(p)
-				dec = be(t.dec(enc), e.W)
+				ee := t.enc(p)
+				enc = cloneB(ee)
+				dec = be(t.dec(ee), e.W)
+				dec2 = be(t.dec(ee), e.W)
 			}
 			if i > 0 {
 				tr.buf = append(tr.buf, ',')
@@ -434,12 +459,26 @@ func cmdCodecRerun(args []string) {
 			tr.rawBytes(enc)
 			tr.buf = append(tr.buf, `,"dec":`...)
 			tr.rawBytes(dec)
+			tr.buf = append(tr.buf, `,"dec2":`...)
+			tr.rawBytes(dec2)
 			tr.buf = append(tr.buf, '}')
 		}
 		tr.buf = append(tr.buf, ']')
 		tr.emit()
 	}
 	tr.Close()
+}
+
+func fieldCode(ty string, w int) int {
+	switch ty {
+	case "u":
+		return map[int]int{1: fU8, 2: fU16, 4: fU32, 8: fU64}[w]
+	case "i":
+		return map[int]int{1: fI8, 2: fI16, 4: fI32, 8: fI64}[w]
+	case "f32":
+		return fF32
+	}
+	return fF64
 }
 
 func init() { extraCmds["codecrun"] = cmdCodecRerun }
